@@ -393,7 +393,7 @@ def run(tier, seed, t0):
     for nm_, fn in (("c17_merge", merge_kernels), ("c17_enhance_key", enhance), ("c17_span_hooks", span_hooks)):
         try:
             fn(e3)
-        except sym.Unsupported as ex:
+        except _e3.ENC_ERRORS as ex:
             e3.error(nm_, "MIR->SMT encoding of metrics-tracing-context", ex)
     finish("C17", tier, seed, list(e3.res.obligations), t0, ASSUME + ["E3 callee models: " + ", ".join(sorted(e3.models))], sorted(e3.functions),
            explanation="MIR->SMT encoding of the label-merging kernels of metrics-tracing-context against the precedence rules")
